@@ -224,6 +224,23 @@ pub fn generate(seed: u64, thorough: bool, sink: &mut Sink) -> Vec<String> {
       }
     }
   }
+  // a whole row or a whole column assigned from a vector (x[i,:] = v, x[:,j] = v): the source a row or a column
+  // vector, of exactly the addressed length or one more or less, through a temporary or a bare variable
+  if !explore {
+    for _ in 0..(if thorough { 3000 } else { 300 }) {
+      let (rows, cols) = *rng.pick(&[(2usize, 3usize), (3, 2), (3, 3), (2, 4), (4, 3)]);
+      let kind = *rng.pick(&["f64", "f64", "string", "bool", "u8", "i32", "f32", "r64", "u64"]);
+      let m = gen_operand(kind, rows, cols, false, &mut rng, 0);
+      let row_form = rng.chance(1, 2);
+      let (s1, s2, n) = if row_form { (format!("s:{}", 1 + rng.below(rows as u64)), "a".to_string(), cols) } else { ("a".to_string(), format!("s:{}", 1 + rng.below(cols as u64)), rows) };
+      let len = match rng.below(6) { 0 => n + 1, 1 => n.saturating_sub(1).max(1), _ => n };
+      if len < 2 { continue; }
+      let src = if rng.chance(1, 2) { gen_operand(kind, 1, len, false, &mut rng, 1) } else { gen_operand(kind, len, 1, false, &mut rng, 1) };
+      let mode = if rng.chance(1, 3) { "var" } else { "tmp" };
+      cases.push(format!("assign\t{}\t{}\t{}\t{}\tset\t{}\t{}\t{}\trowcol", kind, m, s1, s2, src, kind, mode));
+      sink.hit(if len == n { "rowcol:fits" } else { "rowcol:wrong-length" });
+    }
+  }
   // sequences of two to four assignments to the same variable, each a supported cell of that storage form and kind
   if !explore {
     let nseq = if thorough { 4000 } else { 400 };
